@@ -451,7 +451,41 @@ def rule_h(ctx):
     ctx.floor(R, 6)
 
 
+def rule_i(ctx):
+    R = "C11.i"
+    ctx.rule(R, "the interpolation that reaches cv2.resize is the one selected at construction: in Resize.__call__ the `interpolation` keyword of "
+             "every cv2.resize call is self.interpolation on every path (a flag replaced at call time -- e.g. area interpolation swapped for "
+             "bilinear when enlarging -- makes integer up-sampling, and every consumer that asks for area interpolation to conserve sums, "
+             "non-conservative)")
+    m = ctx.model
+    f = m.func(RES, "Resize.__call__")
+    calls = [c for c in ast.walk(f.node) if isinstance(c, ast.Call) and norm(c.func) == "cv2.resize"]
+    ctx.need(calls, "Resize.__call__: no cv2.resize call")
+    for c in calls:
+        kw = [k for k in c.keywords if k.arg == "interpolation"]
+        if not kw:
+            continue
+        ctx.instance(R)
+        v = kw[0].value
+        vals = [v]
+        if isinstance(v, ast.Name):
+            vals = [a.value for a in ast.walk(f.node) if isinstance(a, ast.Assign) and any(isinstance(t, ast.Name) and t.id == v.id for t in a.targets)]
+            if v.id in f.params or not vals:
+                vals = []
+        texts = sorted({norm(x) for x in vals})
+        other = [t for t in texts if t != "self.interpolation"]
+        if texts and not other:
+            ctx.ob(R, f.qname, "cv2.resize is called with the interpolation selected at construction", True, "", c)
+        elif any(t.startswith("cv2.INTER_") for t in other):
+            ctx.ob(R, f.qname, "cv2.resize is called with the interpolation selected at construction", False,
+                   f"the flag handed to cv2.resize is one of {texts}: the selected interpolation is replaced at call time", c, evidence=True)
+        else:
+            ctx.ob(R, f.qname, "cv2.resize is called with the interpolation selected at construction", False, f"interpolation keyword not found to be self.interpolation: {texts}", c)
+    ctx.floor(R, 1)
+
+
 def run(ctx):
+    rule_i(ctx)
     rule_h(ctx)
     rule_g(ctx)
     rule_a(ctx)
